@@ -3389,6 +3389,8 @@ impl GraphEngine {
         let _guard = self.adjacency_lock(&key).write();
         let mut tensor = self.store.get(&key).unwrap_or_else(|_| TensorData::new());
         let mut edges = Self::extract_edge_ids(&tensor);
+        #[cfg(neumann_verif)]
+        tensor_store::verif_hook::point("graph.adjacency_rmw");
         if !edges.contains(&edge_id) {
             edges.push(edge_id);
         }
@@ -6458,6 +6460,8 @@ impl GraphEngine {
     fn remove_edge_from_list(&self, key: &str, edge_id: u64) -> Result<()> {
         let _guard = self.adjacency_lock(key).write();
         if let Ok(mut tensor) = self.store.get(key) {
+            #[cfg(neumann_verif)]
+            tensor_store::verif_hook::point("graph.adjacency_rmw");
             // Remove from new Pointers format
             if let Some(TensorValue::Pointers(ptrs)) = tensor.get("_edges") {
                 let id_str = edge_id.to_string();
